@@ -404,7 +404,7 @@ func (ssm *serverSessionMedia) writePacketRTCP(pkt rtcp.Packet) error {
 
 	maxPlainPacketSize := ssm.ss.s.MaxPacketSize
 	if ssm.srtpOutCtx != nil {
-		maxPlainPacketSize -= srtcpOverhead
+		maxPlainPacketSize -= ssm.srtpOutCtx.rtcpOverhead()
 	}
 
 	if len(plain) > maxPlainPacketSize {
